@@ -138,7 +138,8 @@ PROPS = {
                        ("trim", 3), ("cand", 2), ("reduce", 3), ("simdown", 2), ("simup", 2), ("compl", 3), ("rename", 3),
                        ("nfah_incl", 4), ("nfah_ops", 4), ("nfah_hist", 2), ("tah_store", 3), ("tah_hist", 4), ("lts", 4),
                        ("mth", 3), ("mthrc", 2), ("bddincl", 5), ("bddinclall", 1), ("bddh", 5), ("bddtd", 1), ("parse", 8),
-                       ("meta", 1), ("apisweep", 3)],
+                       ("meta", 1), ("apisweep", 3), ("binrel", 2), ("achain", 1), ("ordvec", 1), ("cacheh", 1), ("glue", 1), ("ltsutil", 1),
+                       ("bddsim", 1), ("mapsx", 1), ("nfah_inclsim", 1)],
                 n=dict(quick=6000, thorough=150000, search=6000),
                 rule="a sample of EVERY workload of C01–C19 (all case kinds, fresh seeds) executed in-process on the library built "
                      "with AddressSanitizer + UndefinedBehaviorSanitizer (-fno-sanitize-recover) and "
